@@ -44,11 +44,14 @@ RefineTrace(G) == LET p0 == InitialPartition(G) IN <<p0>> \o RefineTraceFrom(G, 
 
 \* ---- what C13 demands of a partition ----
 ClassesDense(part) == {part[a] : a \in DOMAIN part} = 0..MaxOf(part)
+\* atoms sorted by class: a statement about all pairs inside a class is checked on neighbours in this order
+ByClass(G, part) == SetToSortSeq(Atoms(G), LAMBDA x, y : part[x] < part[y] \/ (part[x] = part[y] /\ x < y))
 ColourHomogeneous(G, part) ==
-  \A a, b \in Atoms(G) : part[a] = part[b] => Colour(G, a) = Colour(G, b)
+  LET s == ByClass(G, part) IN \A i \in 1..(G.n - 1) : part[s[i]] = part[s[i + 1]] => Colour(G, s[i]) = Colour(G, s[i + 1])
 NbrClasses(G, part, a) == SortSeq(NbrVals(G, ClassVal(G, part), a), LAMBDA x, y : SeqLess(y, x))
 Equitable(G, part) ==
-  \A a, b \in Atoms(G) : part[a] = part[b] => NbrClasses(G, part, a) = NbrClasses(G, part, b)
+  LET s == ByClass(G, part) IN
+  \A i \in 1..(G.n - 1) : part[s[i]] = part[s[i + 1]] => NbrClasses(G, part, s[i]) = NbrClasses(G, part, s[i + 1])
 Stable(G, part) == NumClasses(RefineOnce(G, part)) = NumClasses(part)
 OrbitRespecting(G, part) ==                 \* brute force, small n only
   \A f \in Aut(G) : \A a \in Atoms(G) : part[f[a]] = part[a]
